@@ -30,6 +30,7 @@ import (
 
 func init() {
 	kinds[0x0203] = runRecvAbs
+	kinds[0x0204] = runResync
 	kinds[0x0501] = runRecvAbs
 	props["C05"] = genC05
 }
@@ -255,10 +256,52 @@ func recvAbs(ctx context.Context, in Sx) Sx {
 		contentB[e.St.Path] = e.Content
 		listB = append(listB, e.St)
 	}
+	var lower []*types.Stat
+	if mode == 0 {
+		lower = walked
+	}
+	reqs, notifs, failed, hang := c05Sync(ctx, dest, lower, listB, contentB, differ, order)
+	if hang != "" {
+		return L(N(0xffff), S(hang))
+	}
+	after, err := SnapshotRaw(dest, true)
+	if err != nil {
+		return L(N(0xffff), S("snapshot after"))
+	}
+	firstIno := map[uint64]int{}
+	var final []Sx
+	for i, e := range after {
+		if _, ok := firstIno[e.Ino]; !ok {
+			firstIno[e.Ino] = i
+		}
+		gm := goModeOfUnix(e.Mode)
+		mt := e.MtimeNs
+		if e.Mode&syscall.S_IFMT == syscall.S_IFDIR {
+			mt = 0
+		}
+		var maj, min uint64
+		if t := e.Mode & syscall.S_IFMT; t == syscall.S_IFCHR || t == syscall.S_IFBLK {
+			maj = (e.Rdev >> 8) & 0xfff
+			min = (e.Rdev & 0xff) | ((e.Rdev >> 12) & 0xfff00)
+		}
+		ib, had := inoBefore[e.Path]
+		final = append(final, L(S(e.Path), N(uint64(gm)), N(uint64(e.Uid)), N(uint64(e.Gid)), I64(mt), S(e.Target),
+			N(maj), N(min), B(e.Content), NI(firstIno[e.Ino]), Bool(had && ib == e.Ino)))
+	}
+	rs := make([]Sx, len(reqs))
+	for i, p := range reqs {
+		rs[i] = S(p)
+	}
+	return L(statsSx(walked), L(rs...), L(notifs...), L(final...), Bool(failed))
+}
 
+// c05Sync: ONE synchronisation of the listing listB into dest — the real doubleWalkDiff (hook)
+// over the destination listing lower feeds a fresh real DiskWriter; contents are served from
+// contentB at once (order 0) or held back and completed in the order-th pseudo-random order.
+// Returns the content requests (path order), the notifications in the order observed, whether
+// the transfer failed, and a non-empty string when the real code hung.
+func c05Sync(ctx context.Context, dest string, lower, listB []*types.Stat, contentB map[string][]byte, differ int, order uint64) (reqs []string, notifs []Sx, failed bool, hang string) {
 	var mu sync.Mutex
-	var reqs []string
-	var notifs []Sx
 	gated := order > 0
 	gates := map[string]chan struct{}{}
 	arrived := make(chan string, 4096)
@@ -327,14 +370,9 @@ func recvAbs(ctx context.Context, in Sx) Sx {
 		},
 	})
 	if err != nil {
-		return L(N(0xffff), S("diskwriter"))
-	}
-	var lower []*types.Stat
-	if mode == 0 {
-		lower = walked
+		return nil, nil, true, "diskwriter"
 	}
 	expected := 0
-	failed := false
 	derr := fsutil.VerifDoubleWalkDiff(dctx, lower, listB, nil, fsutil.DiffType(differ),
 		func(k fsutil.ChangeKind, p string, fi os.FileInfo, err error) error {
 			e := dw.HandleChange(k, p, fi, err)
@@ -357,8 +395,12 @@ func recvAbs(ctx context.Context, in Sx) Sx {
 			select {
 			case p := <-arrived:
 				ps = append(ps, p)
+			case <-time.After(2 * time.Second):
+				// every content request is issued by a goroutine that HandleChange has already
+				// started: one that has not arrived after 2 s of silence was never made
+				return nil, nil, true, "hang waiting for requests"
 			case <-ctx.Done():
-				return L(N(0xffff), S("hang waiting for requests"))
+				return nil, nil, true, "hang waiting for requests"
 			}
 		}
 		sort.Strings(ps)
@@ -377,7 +419,7 @@ func recvAbs(ctx context.Context, in Sx) Sx {
 				select {
 				case q = <-notified:
 				case <-ctx.Done():
-					return L(N(0xffff), S("hang waiting for notification"))
+					return nil, nil, true, "hang waiting for notification"
 				}
 				if q == p {
 					break
@@ -388,38 +430,94 @@ func recvAbs(ctx context.Context, in Sx) Sx {
 	if werr := dw.Wait(ctx); werr != nil {
 		failed = true
 	}
-	after, err := SnapshotRaw(dest, true)
-	if err != nil {
-		return L(N(0xffff), S("snapshot after"))
-	}
-	firstIno := map[uint64]int{}
-	var final []Sx
-	for i, e := range after {
-		if _, ok := firstIno[e.Ino]; !ok {
-			firstIno[e.Ino] = i
-		}
-		gm := goModeOfUnix(e.Mode)
-		mt := e.MtimeNs
-		if e.Mode&syscall.S_IFMT == syscall.S_IFDIR {
-			mt = 0
-		}
-		var maj, min uint64
-		if t := e.Mode & syscall.S_IFMT; t == syscall.S_IFCHR || t == syscall.S_IFBLK {
-			maj = (e.Rdev >> 8) & 0xfff
-			min = (e.Rdev & 0xff) | ((e.Rdev >> 12) & 0xfff00)
-		}
-		ib, had := inoBefore[e.Path]
-		final = append(final, L(S(e.Path), N(uint64(gm)), N(uint64(e.Uid)), N(uint64(e.Gid)), I64(mt), S(e.Target),
-			N(maj), N(min), B(e.Content), NI(firstIno[e.Ino]), Bool(had && ib == e.Ino)))
-	}
 	mu.Lock()
 	defer mu.Unlock()
 	sort.Slice(reqs, func(a, b int) bool { return fsutil.ComparePath(reqs[a], reqs[b]) < 0 })
-	rs := make([]Sx, len(reqs))
-	for i, p := range reqs {
+	return reqs, notifs, failed, ""
+}
+
+// kind 0204 (C02): TWO synchronisations of the same source listing B into a destination that
+// starts as A.  input (differ order A B); the first uses the case's differ, the second
+// DiffMetadata.  output (walked1 failed1 walked2 reqs2 notifs2 failed2): the destination as
+// the real walker lists it before each synchronisation, and what the second one requested and
+// notified.  Specification (C02 resync_after_transfer_noop): nothing.
+func runResync(in Sx) (out Sx) {
+	type res struct{ v Sx }
+	done := make(chan res, 1)
+	ctx, cancel := context.WithCancel(context.Background())
+	defer cancel()
+	go func() {
+		var r Sx
+		defer func() {
+			if p := recover(); p != nil {
+				r = L(N(0xffff), S(fmt.Sprint("panic: ", p)))
+			}
+			done <- res{r}
+		}()
+		r = c02Resync(ctx, in)
+	}()
+	select {
+	case r := <-done:
+		return r.v
+	case <-time.After(30 * time.Second):
+		cancel()
+		return L(N(0xffff), S("hang"))
+	}
+}
+
+func c02Resync(ctx context.Context, in Sx) Sx {
+	differ, order := in.L[0].Int(), in.L[1].U64()
+	A, Bl := sxEntries(in.L[2]), sxEntries(in.L[3])
+	work := WorkDir("c02r-")
+	defer os.RemoveAll(work)
+	dest := filepath.Join(work, "d")
+	if err := os.Mkdir(dest, 0755); err != nil {
+		return L(N(0xffff), S("mkdir"))
+	}
+	if err := materializeFlat(A, dest); err != nil {
+		return L(N(0xfffe), S("materialize: "+err.Error()))
+	}
+	contentB := map[string][]byte{}
+	var listB []*types.Stat
+	for _, e := range Bl {
+		contentB[e.St.Path] = e.Content
+		listB = append(listB, e.St)
+	}
+	walk := func() ([]*types.Stat, error) {
+		var walked []*types.Stat
+		err := fsutil.Walk(ctx, dest, nil, func(p string, fi os.FileInfo, err error) error {
+			if err != nil {
+				return err
+			}
+			walked = append(walked, fi.Sys().(*types.Stat).CloneVT())
+			return nil
+		})
+		return walked, err
+	}
+	w1, err := walk()
+	if err != nil {
+		return L(N(0xffff), S("walk: "+err.Error()))
+	}
+	_, _, failed1, hang := c05Sync(ctx, dest, w1, listB, contentB, differ, order)
+	if hang != "" {
+		return L(N(0xffff), S(hang))
+	}
+	if failed1 {
+		return L(statsSx(w1), Bool(true), L(), L(), L(), Bool(false))
+	}
+	w2, err := walk()
+	if err != nil {
+		return L(N(0xffff), S("walk 2: "+err.Error()))
+	}
+	reqs2, notifs2, failed2, hang := c05Sync(ctx, dest, w2, listB, contentB, 0, order)
+	if hang != "" {
+		return L(N(0xffff), S(hang))
+	}
+	rs := make([]Sx, len(reqs2))
+	for i, p := range reqs2 {
 		rs[i] = S(p)
 	}
-	return L(statsSx(walked), L(rs...), L(notifs...), L(final...), Bool(failed))
+	return L(statsSx(w1), Bool(false), statsSx(w2), L(rs...), L(notifs2...), Bool(failed2))
 }
 
 // ---- generator ----------------------------------------------------------------------------
@@ -574,12 +672,18 @@ func genRecvCases(g *Gen, kind uint64, n int, directedRelink bool) {
 		if r.Chance(10) {
 			differ = 1
 		}
-		if r.Chance(12) {
+		if r.Chance(12) && kind != 0x0204 {
 			mode = 1
 			cls += "-merge"
 		}
 		if r.Chance(50) {
 			order = 1 + uint64(r.Intn(1000))
+		}
+		if kind == 0x0204 {
+			if !c02EmitResync(g, differ, order, A, Bl, cls) {
+				skipped++
+			}
+			continue
 		}
 		in := L(NI(differ), NI(mode), N(order), entriesSx(A), entriesSx(Bl))
 		out := runRecvAbs(in)
@@ -789,6 +893,94 @@ func c05LinkMeta(g *Gen, kind uint64) {
 		}
 	}
 	g.Note("directed_link_meta_cases", n)
+}
+
+// c02EmitResync runs one two-synchronisation case (kind 0204) and emits it.  Non-trivial: the
+// first synchronisation succeeded, changed the destination listing, and left at least two entries.
+func c02EmitResync(g *Gen, differ int, order uint64, A, Bl []flatEntry, cls string) bool {
+	fixSizes(A)
+	fixSizes(Bl)
+	in := L(NI(differ), N(order), entriesSx(A), entriesSx(Bl))
+	out := runResync(in)
+	if len(out.L) == 2 && out.L[0].Kind == 'n' && out.L[0].U64() == 0xfffe {
+		return false
+	}
+	nontriv := false
+	if len(out.L) == 6 && !out.L[1].IsTrue() {
+		nontriv = len(out.L[2].L) >= 2 && out.L[0].String() != out.L[2].String()
+	}
+	g.EmitWith(0x0204, in, out, nontriv, cls)
+	return true
+}
+
+// c02ResyncDirected: entries of every type carrying setuid / setgid / sticky, created by the
+// first synchronisation (absent before, or present without the bits, or present as another
+// type), with and without entries below the directories: the second synchronisation of the
+// unchanged source must find nothing to do.
+func c02ResyncDirected(g *Gen) {
+	r := g.Rng
+	bits := []struct {
+		name string
+		m    os.FileMode
+	}{{"sticky", os.ModeSticky}, {"setgid", os.ModeSetgid}, {"setuid", os.ModeSetuid}, {"setgid+sticky", os.ModeSetgid | os.ModeSticky}, {"plain", 0}}
+	types_ := []struct {
+		name string
+		mk   func(p string, extra os.FileMode) flatEntry
+	}{
+		{"dir", func(p string, x os.FileMode) flatEntry {
+			return flatEntry{&types.Stat{Path: p, Mode: uint32(os.ModeDir | 0775 | x), ModTime: 1700000000e9}, nil}
+		}},
+		{"file", func(p string, x os.FileMode) flatEntry {
+			return flatEntry{&types.Stat{Path: p, Mode: uint32(0755 | x), Uid: 1, Gid: 2, ModTime: 1600000001e9}, []byte("#!")}
+		}},
+		{"fifo", func(p string, x os.FileMode) flatEntry {
+			return flatEntry{&types.Stat{Path: p, Mode: uint32(os.ModeNamedPipe | 0660 | x), ModTime: 1600000002e9}, nil}
+		}},
+		{"chardev", func(p string, x os.FileMode) flatEntry {
+			return flatEntry{&types.Stat{Path: p, Mode: uint32(os.ModeDevice | os.ModeCharDevice | 0620 | x), Devmajor: 1, Devminor: 3, ModTime: 1600000003e9}, nil}
+		}},
+	}
+	n := 0
+	for _, ty := range types_ {
+		for _, b := range bits {
+			for prior := 0; prior < 3; prior++ { // 0 absent, 1 same type without the bits, 2 another type
+				for below := 0; below < 2; below++ {
+					if below == 1 && ty.name != "dir" {
+						continue
+					}
+					var A, Bl []flatEntry
+					keep := flatEntry{&types.Stat{Path: "a", Mode: 0644, ModTime: 1600000009e9}, []byte("keep")}
+					A = append(A, flatEntry{keep.St.CloneVT(), keep.Content})
+					Bl = append(Bl, flatEntry{keep.St.CloneVT(), keep.Content})
+					e := ty.mk("t", b.m)
+					Bl = append(Bl, e)
+					if below == 1 {
+						Bl = append(Bl, flatEntry{&types.Stat{Path: "t/f", Mode: 0644, ModTime: 1600000004e9}, []byte("f")})
+						Bl = append(Bl, flatEntry{&types.Stat{Path: "t/s", Mode: uint32(os.ModeDir | 0700 | os.ModeSticky), ModTime: 1600000005e9}, nil})
+					}
+					switch prior {
+					case 1:
+						A = append(A, ty.mk("t", 0))
+					case 2:
+						if ty.name == "dir" {
+							A = append(A, flatEntry{&types.Stat{Path: "t", Mode: 0600, ModTime: 1600000006e9}, []byte("was a file")})
+						} else {
+							A = append(A, flatEntry{&types.Stat{Path: "t", Mode: uint32(os.ModeDir | 0700), ModTime: 1600000006e9}, nil})
+							A = append(A, flatEntry{&types.Stat{Path: "t/old", Mode: 0600, ModTime: 1600000006e9}, []byte("old")})
+						}
+					}
+					order := uint64(0)
+					if r.Bool() {
+						order = 1 + uint64(r.Intn(1000))
+					}
+					if c02EmitResync(g, 0, order, A, Bl, "resync-directed-"+ty.name+"-"+b.name) {
+						n++
+					}
+				}
+			}
+		}
+	}
+	g.Note("resync_directed_cases", n)
 }
 
 func genC05(g *Gen) {
